@@ -179,7 +179,8 @@ Proof.
   - (* OWrite *)
     exact (exec_write c w st hk v idx r HW Hfuse Hr).
   - (* OSwap *)
-    destruct (N.eqb_spec pr 0) as [->|]; [|discriminate]. exact (exec_swap c w st v1 i v2 j r HW Hfuse Hr).
+    destruct (N.eqb_spec pr 0) as [->|Hpr]; [exact (exec_swap c w st v1 i v2 j r HW Hfuse Hr)|].
+    exact (exec_swap_temp c w st pr v1 i v2 j r Hwf HW Hfuse Hpr Hr).
   - (* OLazyDown *)
     exact (exec_lazy_down c w st depth v idx r Hwf HW Hfuse Hr).
 Qed.
@@ -264,7 +265,7 @@ Proof.
     try (destruct (sp_take c st nx v k (match k with TPop => 0 | _ => idx end) KDrop) as [r0|] eqn:E0; [|discriminate];
          apply sp_take_nx in E0; injection H as <-; destruct (s_out r0 =? 0); cbn [s_nx s_out]; lia);
     try (unfold sp_write in H; crush H; cbn; split; lia);
-    try (unfold sp_swap in H; crush H; cbn; split; lia);
+    try (unfold sp_swap, sp_swap_temp in H; crush H; cbn; split; lia);
     try (unfold sp_lazy_down in H; crush H; cbn; split; lia);
     try (unfold sp_spare_write in H; crush H; cbn; split; lia);
     crush H; cbn; split; lia.
@@ -597,7 +598,9 @@ Definition ex_ops : list op :=
     (* at(1).lazy_clone().lazy_clone().downcast::<T>(): one Clone, the caller's; out of range: panics *)
     OLazyDown 2 9 1; OLazyDown 1 9 7;
     (* two fresh values written into the spare capacity through the typed view, then set_len *)
-    OReserve 9 2; OSpareWrite Typed 9 2; OGet Erased 9 4 ].
+    OReserve 9 2; OSpareWrite Typed 9 2; OGet Erased 9 4;
+    (* the removal handle of 9[0] swapped with the element handle of 10[0], then dropped *)
+    OPush Erased 10 SWrap; OSwap 1 9 0 10 0; OGet Erased 10 0; OSwap 2 9 7 10 0 ].
 
 Example ex_spec_defined : exists rs, spec_run ex_cfg [] 1 ex_ops = Some rs /\ length rs = length ex_ops.
 Proof. eexists. split; [vm_compute; reflexivity|reflexivity]. Qed.
@@ -628,7 +631,8 @@ Example ex_outcomes :
      (0,0,[45; 46]); (0,0,[44; 47]); (0,0,[49; 50; 48]); (0,0,[52]);
      (0,0,[]); (0,0,[]); (2,1,[]);
      (0,0,[1]); (0,0,[1; 1; 56; 0; 56]); (2,3,[]); (0,0,[62]); (2,1,[]);
-     (0,0,[]); (0,0,[]); (0,0,[64])].
+     (0,0,[]); (0,0,[]); (0,0,[64]);
+     (0,0,[]); (0,0,[]); (0,0,[61]); (2,1,[])].
 Proof. vm_compute. reflexivity. Qed.
 
 (** ** Corollaries in the vocabulary of the properties *)
